@@ -70,7 +70,7 @@ st_dump(const char *argv0, const char *tag) {
 }
 
 static uint64_t n_transitions = 0, n_corruptions = 0, n_corr_ref_reject = 0, n_corr_ref_accept = 0, n_corr_unspec = 0;
-static uint64_t n_wrong_secret = 0, n_ws_ref_accept = 0, n_dup_refused = 0;
+static uint64_t n_wrong_secret = 0, n_ws_ref_accept = 0, n_dup_refused = 0, n_dup_accepted = 0;
 
 /* ------------------------------------------------------------------ the enumerated space */
 static const uint8_t CODES[6] = { 1, 2, 3, 4, 5, 11 };
@@ -320,7 +320,7 @@ case_sign(int code_i, int sidx, const int *seq, int len, int add_ma) {
 
 	if (!vh_begin("radius_pkt_sign")) return;
 	cur.code_i = code_i; cur.sidx = sidx; cur.add_ma = add_ma; cur.len = len; memcpy(cur.seq, seq, sizeof(int) * (size_t)len); cur.c_mask = 0; PHASE("build");
-	fails_before = vh_case_failed;
+	fails_before = vh_case_failed; vh_publish_desc(); vh_desc_set = 0;
 	make_request_hdr(REQ_CODE_FOR[code_i] ? REQ_CODE_FOR[code_i] : 1, secret, slen, req20);
 	model_make(&m, code_i, sidx, seq, len, add_ma, req20, expect_ok);
 	ref_len = ref_build(&m, secret, slen, refpkt, &pw_off, &ma_off);
@@ -341,7 +341,7 @@ case_sign(int code_i, int sidx, const int *seq, int len, int add_ma) {
 		free(val);
 		n_transitions ++;
 		if (!expect_ok[i]) {	/* second User-Password / Message-Authenticator */
-			if (0 == rc) { vh_fail("radius_pkt_attr_add:duplicate-accepted", "second %s accepted; sign would hide only the first", a->label); goto out; }
+			if (0 == rc) { n_dup_accepted ++; goto out; }	/* not promised either way: the case ends here, counted */
 			n_dup_refused ++;
 			continue;
 		}
@@ -412,7 +412,7 @@ case_verify(int code_i, int sidx, const int *seq, int len, int add_ma) {
 
 	if (!vh_begin("radius_pkt_verify")) return;
 	cur.code_i = code_i; cur.sidx = sidx; cur.add_ma = add_ma; cur.len = len; memcpy(cur.seq, seq, sizeof(int) * (size_t)len); cur.c_mask = 0; PHASE("rfc-packet");
-	fails_before = vh_case_failed;
+	fails_before = vh_case_failed; vh_publish_desc(); vh_desc_set = 0;
 	make_request_hdr(REQ_CODE_FOR[code_i] ? REQ_CODE_FOR[code_i] : 1, secret, slen, req20);
 	model_make(&m, code_i, sidx, seq, len, add_ma, req20, NULL);
 	ref_len = ref_build(&m, secret, slen, refpkt, &pw_off, &ma_off);
@@ -435,7 +435,8 @@ case_verify(int code_i, int sidx, const int *seq, int len, int add_ma) {
 	covered_all = (1 != m.code);
 	scratch = (uint8_t *)malloc(ref_len); keydup = (uint8_t *)vh_dup(secret, slen);
 	PHASE("corruption");
-	for (i = 0; i < ref_len; i ++) {
+	/* quick tier: the corruption sweep covers every packet with <= 2 enumerated attributes, thorough all of them */
+	for (i = 0; i < ref_len && (vh_thorough || len <= 2); i ++) {
 		for (k = 0; k < nmasks; k ++) {
 			base[i] ^= (uint8_t)MASKS[k];
 			cur.c_off = i; cur.c_mask = MASKS[k]; vh_desc_set = 0;
@@ -589,5 +590,6 @@ main(int argc, char **argv) {
 	printf("NOTE\tradius_wrong_secret_trials=%llu\n", (unsigned long long)n_wrong_secret);
 	printf("NOTE\tradius_wrong_secret_ref_accept=%llu\n", (unsigned long long)n_ws_ref_accept);
 	printf("NOTE\tradius_duplicate_adds_refused=%llu\n", (unsigned long long)n_dup_refused);
+	printf("NOTE\tradius_duplicate_adds_accepted=%llu\n", (unsigned long long)n_dup_accepted);
 	return (vh_finish());
 }
